@@ -224,12 +224,59 @@ def _hex_generator(repo):
     centre = [x for x in body if isinstance(x, ast.If) and 'drop' in ast.unparse(x.test)]
     loops = [i for i, x in enumerate(body) if isinstance(x, ast.For)]
     if len(centre) != 1 or len(loops) != 1 or loops[0] == 0: raise Refuse('hex_segments: segment loop changed')
-    _same_shape(centre, 'if 0 not in drop:\n    mask.append(lentil.hexagon(shape, seg_radius, shift=(0, 0), antialias=antialias, rotate=rotate))',
-                params + ['mask', 'shape'], 'hex_segments centre segment')
-    _same_shape(body[loops[0] - 1:loops[0] + 1],
-                'seg = 1\nfor ring in range(1, rings + 1):\n    for h in hex_ring(ring):\n        r, c = hex_to_rc(h, seg_radius + seg_gap / 2, rotate)\n'
-                '        if seg not in drop:\n            mask.append(lentil.hexagon(shape, seg_radius, shift=(r, c), antialias=antialias, rotate=rotate))\n        seg += 1',
-                params + ['mask', 'shape'], 'hex_segments numbering loop')
+    # the numbering is TRANSLATED statement by statement into folds over the state (kept, seg): kept = the (segment number, cell) pairs whose
+    # hexagon is appended to `mask`, in order.  A cell enters through the `shift=` of the hexagon call: (0, 0) is the centre cell, (r, c) bound by
+    # `r, c = hex_to_rc(h, <pitch>, rotate)` is the cell `h`.
+    HEXCALL = 'lentil.hexagon(shape, seg_radius, shift=SHIFT, antialias=antialias, rotate=rotate)'
+    def nat_expr(e, names):
+        if isinstance(e, ast.Constant) and isinstance(e.value, int) and e.value >= 0: return str(e.value)
+        if isinstance(e, ast.Name) and e.id in names: return e.id
+        if isinstance(e, ast.BinOp) and isinstance(e.op, (ast.Add, ast.Sub)):
+            return f"({nat_expr(e.left, names)} {'+' if isinstance(e.op, ast.Add) else '-'} {nat_expr(e.right, names)})"
+        raise Refuse('hex_segments: index expression ' + ast.unparse(e))
+    def seg_fold(stmts, names, cellof, depth):
+        ind = '  ' * (depth + 1); out = []
+        for x in stmts:
+            u = ast.unparse(x)
+            if isinstance(x, ast.For) and isinstance(x.target, ast.Name) and isinstance(x.iter, ast.Call) and not x.orelse:
+                f = ast.unparse(x.iter.func); v = x.target.id
+                if f == 'range' and len(x.iter.args) == 2:
+                    a, b = (nat_expr(q, names) for q in x.iter.args)
+                    out.append(f"{ind}let st := (List.range' {a} ({b} - {a})).foldl (fun st {v} =>\n" + seg_fold(x.body, names + [v], cellof, depth + 1) + ') st')
+                elif f == 'hex_ring' and len(x.iter.args) == 1:
+                    out.append(f'{ind}let st := (hexRing {nat_expr(x.iter.args[0], names)}).foldl (fun st {v} =>\n' + seg_fold(x.body, names, dict(cellof, **{'@cellvar': v}), depth + 1) + ') st')
+                else: raise Refuse('hex_segments: loop ' + u.split('\n')[0])
+            elif isinstance(x, ast.Assign) and isinstance(x.targets[0], ast.Tuple) and isinstance(x.value, ast.Call) and ast.unparse(x.value.func) == 'hex_to_rc':
+                names_rc = [ast.unparse(t) for t in x.targets[0].elts]
+                args = [ast.unparse(a).replace(' ', '') for a in x.value.args]
+                if len(names_rc) != 2 or len(args) != 3 or args[0] != cellof.get('@cellvar') or args[1] != 'seg_radius+seg_gap/2' or args[2] != 'rotate' or x.value.keywords:
+                    raise Refuse('hex_segments: centre of a segment: ' + u)
+                cellof['(' + ', '.join(names_rc) + ')'] = args[0]                 # shift=(r, c) now means the cell h
+            elif isinstance(x, ast.If) and not x.orelse and len(x.body) == 1:
+                t = x.test
+                if not (isinstance(t, ast.Compare) and len(t.ops) == 1 and isinstance(t.ops[0], ast.NotIn) and ast.unparse(t.comparators[0]) == 'drop'):
+                    raise Refuse('hex_segments: condition ' + ast.unparse(t))
+                who = 'st.2' if ast.unparse(t.left) == 'seg' else nat_expr(t.left, [])
+                call = x.body[0]
+                if not (isinstance(call, ast.Expr) and isinstance(call.value, ast.Call) and ast.unparse(call.value.func) == 'mask.append' and len(call.value.args) == 1):
+                    raise Refuse('hex_segments: kept segment is not appended to mask: ' + ast.unparse(call))
+                hx = call.value.args[0]
+                shift = [k.value for k in getattr(hx, 'keywords', []) if k.arg == 'shift']
+                if len(shift) != 1: raise Refuse('hex_segments: hexagon call ' + ast.unparse(hx))
+                sh = ast.unparse(shift[0])
+                if ast.unparse(hx) != HEXCALL.replace('SHIFT', sh): raise Refuse('hex_segments: hexagon call ' + ast.unparse(hx))
+                if sh == '(0, 0)': cell = '(0, 0, 0)'
+                elif sh in cellof: cell = cellof[sh]
+                else: raise Refuse('hex_segments: shift ' + sh)
+                out.append(f'{ind}let st := (if drop.contains {who} then st.1 else st.1 ++ [({who}, {cell})], st.2)')
+            elif isinstance(x, ast.Assign) and ast.unparse(x.targets[0]) == 'seg' and isinstance(x.value, ast.Constant) and isinstance(x.value.value, int) and x.value.value >= 0:
+                out.append(f'{ind}let st := (st.1, {x.value.value})')
+            elif u.replace(' ', '') == 'seg+=1': out.append(f'{ind}let st := (st.1, st.2 + 1)')
+            else: raise Refuse('hex_segments: statement ' + u.split('\n')[0])
+        return '\n'.join(out) + f'\n{ind}st'
+    ci = body.index(centre[0])
+    if not (ci < loops[0] - 1): raise Refuse('hex_segments: centre segment is not drawn before the rings')
+    kept_fold = seg_fold([centre[0], body[loops[0] - 1], body[loops[0]]], ['rings'], {}, 0)
     # array size, inner radius and grid pitch: TRANSLATED (real-valued expressions over seg_radius, seg_gap, rings, pad, sqrt(3))
     env = {'seg_radius': 'seg_radius', 'seg_gap': 'seg_gap', 'rings': '((rings : Nat) : K)', 'pad': '((pad : Nat) : K)'}
     asg = {ast.unparse(x.targets[0]): x.value for x in body if isinstance(x, ast.Assign) and len(x.targets) == 1}
@@ -276,6 +323,11 @@ def _hex_generator(repo):
             'def hexRing (radius : Nat) : List (Int × Int × Int) :=\n'
             '  let st : List (Int × Int × Int) × (Int × Int × Int) := ([], hexRingStart (radius : Int))\n'
             + ring_fold + '.1\n\n'
+            '/-- `hex_segments`: the (segment number, cell) pairs whose hexagon is drawn, in order — the centre test, `seg = 1` and the ring loops TRANSLATED\n'
+            'into folds over the state `(kept, seg)` -/\n'
+            'def keptCells (rings : Nat) (drop : List Nat) : List (Nat × (Int × Int × Int)) :=\n'
+            '  let st : List (Nat × (Int × Int × Int)) × Nat := ([], 0)\n'
+            + kept_fold + '.1\n\n'
             '/-- `hex_segments`: `inner_radius` -/\n'
             f'def hexInner {KCLASSES} (sqrtN : Nat → K) (seg_radius : K) : K := {inner_l}\n\n'
             '/-- `hex_segments`: the argument of `np.ceil` in `size` -/\n'
@@ -288,7 +340,7 @@ def _hex_generator(repo):
             '/-- `hex_to_rc` -/\n'
             f'def hexToRC {KCLASSES} (sqrtN : Nat → K) (h : Int × Int × Int) (radius : K) (rotate : Bool) : K × K :=\n'
             f'  let xy := hexToXY sqrtN h radius rotate\n  {rc_l}\n')
-    return lean, ['hex_ring loops, hex_neighbor and hex_direction TRANSLATED (Gen.hexRing folds, Gen.hexNeighbor); hex_add body and the hex_segments numbering loop matched structurally (alpha-renamed AST); inner radius, array-size argument, grid pitch, hex_to_xy and hex_to_rc translated']
+    return lean, ['hex_ring loops, hex_neighbor and hex_direction TRANSLATED (Gen.hexRing folds, Gen.hexNeighbor); the hex_segments numbering (centre test, seg counter, ring loops, drop test) TRANSLATED (Gen.keptCells); hex_add body matched structurally (alpha-renamed AST); inner radius, array-size argument, grid pitch, hex_to_xy and hex_to_rc translated']
 
 
 # ---------------------------------------------------------------------------------------------- helper.mesh
